@@ -50,6 +50,43 @@ def enum_programs(tier):
     return out
 
 
+def long_string_obligations():
+    """STR("...") literals of 1..14 characters (the game packs six; the transpiler accepts any length and
+    the verbose token keeps the whole string): the number printed in compact mode must be the big-endian
+    packing of the whole string, exactly, as an integer."""
+    rows = []
+    n = 0
+    samples = ["Hello World!!x", "ABCDEFGHIJKLMN", "9 lives left..", " pad both end ", "zzzzzzzzzzzzzz"]
+    for L in range(1, 15):
+        for smp in samples:
+            txt = smp[:L]
+            src = HDR + f'db.Setting = STR("{txt}")\nmsg = STR("{txt}")\npush(msg)\nd0.Setting = STR("{txt}") + d1.Setting\n'
+            a = comp.compile_capture(src, append_version=False, compact=False)
+            b = comp.compile_capture(src, append_version=False, compact=True)
+            if not (a.ok and b.ok):
+                continue
+            want = 0
+            for ch in txt:
+                want = want * 256 + ord(ch)
+            for la, lb in zip(a.code.split("\n"), b.code.split("\n")):
+                ta, tb = ic10.TOKEN_RE.findall(la), ic10.TOKEN_RE.findall(lb)
+                for x, y in zip(ta, tb):
+                    if x.startswith("STR("):
+                        n += 1
+                        if x != f'STR("{txt}")':
+                            rows.append(dict(kind="long_string", detail=f"verbose prints {x} for STR(\"{txt}\")"))
+                        if y == x:
+                            continue
+                        try:
+                            got = int(y[1:], 16) if y.startswith("$") else int(y)
+                        except ValueError:
+                            rows.append(dict(kind="long_string", detail=f"compact prints {y!r} for {x}"))
+                            continue
+                        if got != want:
+                            rows.append(dict(kind="long_string", detail=f"compact prints {y} = {got} for {x}, whose big-endian packing is {want}"))
+    return n, rows
+
+
 def task(spec):
     out = dict(name=spec["name"], status="ok", problems=[], tokens=0, symbolic_tokens=0)
     try:
@@ -137,6 +174,14 @@ def run(tier: str) -> int:
             continue
         path = e1.save_replay(PROP, dict(property=PROP, kind="table_row", row=row))
         rep.violation(f"compact mode prints {row['table']} for {row['enum']}.{row['member']}, the documented value of the token is {row['documented']} ({row['where']})", path)
+    n_long, long_rows = long_string_obligations()
+    seen_l = set()
+    for row in long_rows:
+        if row["detail"] in seen_l or len(seen_l) >= 3:
+            continue
+        seen_l.add(row["detail"])
+        path = e1.save_replay(PROP, dict(property=PROP, kind="table_row", row=row))
+        rep.violation(f"STR literal: {row['detail']}", path)
     e2cov = {}
     try:
         from .. import e2
@@ -153,5 +198,6 @@ def run(tier: str) -> int:
         tokens_compared=sum(r.get("tokens", 0) for r in results),
         symbolic_tokens=sum(r.get("symbolic_tokens", 0) for r in results),
         e2=e2cov,
+        long_string_tokens_compared=n_long,
     )
     return rep.finish()
